@@ -481,6 +481,15 @@ func (s *Session) checkChanges(o *Obs) error {
 					}
 					s.Checks++
 					exp := s.expectItems(pg.Items)
+					if s.relaxFull != nil && lo {
+						// interrupted compaction: the newest version of an already compacted entity has moved
+						// to an earlier position, of the others not yet: judged as a collection
+						if since == 0 && lim == 0 && !sameBag(exp, items) {
+							s.diverge("changes", map[string]any{"ds": n, "since": 0, "limit": 0, "latestOnly": true, "mode": "interrupted compaction"},
+								map[string]any{"as-collection": exp}, items, "")
+						}
+						continue
+					}
 					if s.relaxFull != nil && !lo {
 						// interrupted compaction: only the unpaged full feed is judged, and it may still hold
 						// duplicates that the completed compaction would have removed
@@ -504,7 +513,7 @@ func (s *Session) checkChanges(o *Obs) error {
 					}
 				}
 				// token walk with this limit from 0: concatenation equals the unpaged answer
-				if lim > 0 && !(s.relaxFull != nil && !lo) {
+				if lim > 0 && s.relaxFull == nil {
 					full := tab[chgKey{n, 0, 0, lo}]
 					var all []CEntity
 					tok := uint64(0)
